@@ -41,8 +41,9 @@ class Fault(Exception):
     pass
 
 
-def make_extra(fail_at=None, counter=None):
-    """summaries for the micro-solvers; fail_at = (kind, index) injects a failure"""
+def make_extra(fail_at=None, counter=None, spd_ok=True):
+    """summaries for the micro-solvers; fail_at = (kind, index) injects a failure; spd_ok=False: the CG micro-solver reports failure
+    and what it returns is an unconverged iterate - a fresh symbol unrelated to the solution, so any use of it shows in the results"""
     def extra(dom):
         ctx = dom.ctx
         inv_cache = {}
@@ -91,6 +92,9 @@ def make_extra(fail_at=None, counter=None):
             maybe_fail("spd")
             inv = get_inverse(G)
             dom.micro.append(("spd", G, B))
+            if not spd_ok:
+                junk = QM(ctx.fresh("CGfail", kind="quat"), (G.shape[1], B.shape[1]) if (G.shape and B.shape) else None, "quat")
+                return (junk, UNKNOWN(("spd-ok", counts["spd"])))
             return (inv.matmul(B), UNKNOWN(("spd-ok", counts["spd"])))
 
         def s_inv_small(it, self_, A, ns_iters=12):
@@ -194,7 +198,7 @@ def run(ctx):
                             return stop_at is not None and len(stops) - 1 == stop_at
                         return None
 
-                    it, dom, dec = new_nc(ctx, policy, make_extra(fail))
+                    it, dom, dec = new_nc(ctx, policy, make_extra(fail, spd_ok=spd_ok))
                     A = _A(dom, (3, 2))
                     inst = Instance(c_rsp, dict(block_size=2, max_iter=ITERS, tol=TOL, test_sketch_size=2, verbose=False,
                                                 seed=None, column_solver=solver))
@@ -341,7 +345,7 @@ def run(ctx):
                         return stop_at is not None and len(stops) - 1 == stop_at
                     return None
 
-                it, dom, dec = new_nc(ctx, policy, make_extra(fail))
+                it, dom, dec = new_nc(ctx, policy, make_extra(fail, spd_ok=spd_ok))
                 A = _A(dom, (2, 3))
                 inst = Instance(c_rsp, dict(block_size=2, max_iter=ITERS, tol=TOL, test_sketch_size=2, verbose=False,
                                             seed=None, column_solver="qr"))
@@ -618,6 +622,32 @@ def run(ctx):
                    detail=short(rn))
             fo, fw = flag_ok(info.get("converged"), rn[-1] if rn else None, dec.log)
             ctx.ob("C13.D1.flag", tag, fo, fw, where=f_cg.where, construct="cgne converged flag", loc=f_cg.loc())
+
+    # ---- CGNE: breakdown in the very first iteration (||W|| <= threshold, e.g. an input of tiny norm): nothing was iterated, the
+    # history is empty and X is still the initial guess - the flag must not claim convergence
+    def pol_bd(cond, node, interp, dec):
+        parts = cond_parts(cond)
+        if parts and any(a == "tol" for a in cond_atoms(cond)):
+            return False
+        if parts and parts[0] in ("le", "lt") and P(parts[2]).is_const():
+            return True               # breakdown test taken
+        return None
+    it, dom, dec = new_nc(ctx, pol_bd, make_extra(None))
+    A = _A(dom, (3, 2))
+    st, out = run_guarded(lambda: it.run(f_cg, [A], bound_self=Instance(
+        c_cg, dict(tol=TOL, max_iter=2, verbose=False, preconditioner_rank=0, seed=None))))
+    okb, whyb = st == "ok", (str(out) if st != "ok" else "")
+    if okb:
+        Xb, infob = out
+        rn = infob.get("residual_norms")
+        fl = infob.get("converged")
+        if rn:
+            okb, whyb = False, "a residual is reported although no iteration was carried out"
+        elif fl is not False:
+            okb, whyb = False, (f"converged = {short(fl)} after an immediate breakdown: the returned X is the initial guess and nothing "
+                                f"establishes that it is the pseudoinverse")
+    ctx.ob("C13.D1.flag", "cgne breakdown in iteration 0 (empty history)", okb, whyb, where=f_cg.where,
+           construct="cgne converged flag with an empty history", loc=f_cg.loc())
 
     # ================================================================= CG micro-solver: columns are solved independently
     _check_cg_micro(ctx, prog, c_rsp)
